@@ -15,6 +15,7 @@
   actor ::= (tag stateful)        slot ::= none | actor
   expr  ::= (wrap slot slot slot) | (mapreduce (actor ...) tag) | (debug actor actor)
           | (stack (expr ...) nsplits splitter appender stacker reducer) | (seq expr expr)
+          | (api extend none|tag none|tag none|tag true|false) | (api labelmix tag) | (api monitor actor) | (api tee tag)
 -/
 import ForML.Model.Sexp
 import ForML.Model.Compose
@@ -37,6 +38,10 @@ def slot? : Sexp → Option (Option Actor)
   | .atom "none" => some none
   | x => (actor? x).map some
 
+def optNat? : Sexp → Option (Option Nat)
+  | .atom "none" => some none
+  | x => x.nat?.map some
+
 partial def expr? : Sexp → Option Expr
   | .list [.atom "wrap", l, a, t] => do pure (.wrap (← slot? l) (← slot? a) (← slot? t))
   | .list [.atom "mapreduce", .list ms, r] => do pure (.mapreduce (← ms.mapM actor?) (← r.nat?))
@@ -44,6 +49,11 @@ partial def expr? : Sexp → Option Expr
   | .list [.atom "stack", .list bs, n, s, a, k, r] => do
     pure (.stack (← bs.mapM expr?) (← n.nat?) (← s.nat?) (← a.nat?) (← k.nat?) (← r.nat?))
   | .list [.atom "seq", l, r] => do pure (.seq (← expr? l) (← expr? r))
+  | .list [.atom "api", .atom "extend", a, t, l, via] => do
+    pure (.api (.extend (← optNat? a) (← optNat? t) (← optNat? l) (← bool? via)))
+  | .list [.atom "api", .atom "labelmix", t] => do pure (.api (.labelMix (← t.nat?)))
+  | .list [.atom "api", .atom "monitor", a] => do pure (.api (.monitor (← actor? a)))
+  | .list [.atom "api", .atom "tee", t] => do pure (.api (.tee (← t.nat?)))
   | _ => none
 
 partial def valSexp : Val → Sexp
